@@ -68,8 +68,13 @@ def keyfmt_applicable(case, keyfmt):
     raise ValueError(keyfmt)
 
 
-def run_case(case, keyfmt="tuple"):
-    """Run block_diagonalize; returns {name: gq.Series} in the ORIGINAL basis of the case."""
+def run_case(case, keyfmt="tuple", symnames=None):
+    """Run block_diagonalize; returns {name: gq.Series} in the ORIGINAL basis of the case.
+
+    `symnames`: names of the perturbative symbols by PARAMETER POSITION (used by the expression format,
+    where the order of the parameters is the order of the explicit `symbols=` list and must not depend
+    on the names; the monomial-key format always uses names in alphabetical order because there the
+    library defines the parameter order by the names)."""
     import sympy
     from pymablock import block_diagonalize
     nb, sizes, perm, offs = implrun.layout(case)
@@ -77,7 +82,9 @@ def run_case(case, keyfmt="tuple"):
     fmt = case["fmt"]
     terms = {gen.unkey(k): gq.dec(M) for k, M in case["H"].items()}
     kw = dict(subspace_indices=case["sub"], fully_diagonalize=implrun.build_fully(case), hermitian=case["hermitian"])
-    syms = [sympy.Symbol("p%d" % i, real=True) for i in range(nparam)]
+    names = list(symnames) if (symnames and keyfmt == "expr") else ["p%d" % i for i in range(nparam)]
+    assert len(names) == nparam and len(set(names)) == nparam
+    syms = [sympy.Symbol(nm, real=True) for nm in names]
     if keyfmt == "tuple":
         H = {n: _matrix_value(M, fmt) for n, M in terms.items()}
     elif keyfmt == "list":
@@ -610,25 +617,42 @@ def predict(rel, bases, P, outs, tcase):
 # ---------------------------------------------------------------------------
 # one evaluation
 
-def _try_run(case, keyfmt):
+def _try_run(case, keyfmt, symnames=None):
     try:
-        return run_case(case, keyfmt), None
+        return run_case(case, keyfmt, symnames), None
     except Exception as e:
         return None, "%s: %s" % (type(e).__name__, str(e)[:200])
 
 
-def check_relation(relation, base, params, keyfmt="tuple", keyfmt_t=None):
+def draw_symnames(rng, nparam):
+    """symbol names by parameter position whose order is NOT the alphabetical one (reverse-alphabetical,
+    or a rotation / random derangement of it) whenever there are at least two parameters"""
+    alpha = ["a", "b", "c", "d", "e"][:nparam]
+    if nparam < 2:
+        return alpha
+    choice = rng.random()
+    if choice < 0.5:
+        return alpha[::-1]
+    if choice < 0.75:
+        return alpha[1:] + alpha[:1]
+    names = list(alpha)
+    while names == alpha:
+        rng.shuffle(names)
+    return names
+
+
+def check_relation(relation, base, params, keyfmt="tuple", keyfmt_t=None, symnames=None, symnames_t=None):
     """Replayable: returns (failures, info). `base` is a list of one or two cases."""
-    inp = dict(relation=relation, base=base, params=params, keyfmt=keyfmt, keyfmt_t=keyfmt_t)
+    inp = dict(relation=relation, base=base, params=params, keyfmt=keyfmt, keyfmt_t=keyfmt_t, symnames=symnames, symnames_t=symnames_t)
     tcase = transform(relation, base, params)
     kt = keyfmt_t or keyfmt
     outs = []
     errs = []
     for c in base:
-        o, e = _try_run(c, keyfmt)
+        o, e = _try_run(c, keyfmt, symnames)
         outs.append(o)
         errs.append(e)
-    ot, et = _try_run(tcase, kt)
+    ot, et = _try_run(tcase, kt, symnames_t)
     info = dict(nontrivial=False, raised=bool(et or any(errs)))
     fails = []
     if any(errs) or et:
@@ -815,7 +839,11 @@ def _worker(args):
                 kf, kft = _pick_keyfmt(rel, bases, rng)
                 if not keyfmt_applicable(tcase, kft):
                     kf = kft = "tuple"
-            fails, info = check_relation(rel, bases, P, kf, kft)
+            # expression format: explicit symbols= lists in non-alphabetical order, drawn independently for the
+            # base and the transformed problem; everything is compared by parameter position
+            sn = draw_symnames(rng, bases[0]["nparam"]) if kf == "expr" else None
+            snt = draw_symnames(rng, tcase["nparam"]) if kft == "expr" else None
+            fails, info = check_relation(rel, bases, P, kf, kft, sn, snt)
             return dict(rel=rel, bases=bases, params=P, keyfmt=kf if kf == kft else "%s->%s" % (kf, kft), fails=fails, info=info, dt=time.time() - t, skipped=False)
         return dict(rel=rel, bases=None, params=None, keyfmt=None, fails=[], info=dict(nontrivial=False, raised=False), dt=time.time() - t, skipped=True)
     except Exception:
